@@ -58,6 +58,9 @@ def cases(tier, seed):
                                 # second execution path of solve: a Python while loop with an un-jitted get_batch when the
                                 # observation batch is placed on a device explicitly (obs_batch_sharding)
                                 out.append(dict(kind=kind, opt=opt, n=n, b=b, aux=aux, tracked=tracked, split=split, key=seed + 5, path="python_loop"))
+    for kind in B["kinds"]:
+        for opt in B["opts"]:
+            out.append(dict(kind=kind, opt=opt, n=4, b=2, aux="none", tracked="eq", split=[3], key=seed + 5, path="while_loop", inf_param=True))
     out.sort(key=lambda c: (len(c["split"]), sum(c["split"]), c["aux"] != "none", c["tracked"] != "none"))
     return out
 
